@@ -69,13 +69,24 @@ HasField(fs, n) == \E x \in DOMAIN fs : fs[x].n = n
 FieldTy(fs, n)  == fs[CHOOSE x \in DOMAIN fs : fs[x].n = n].t
 
 (* a type expression written in the source is well formed *)
-RECURSIVE WfType(_, _)
-WfType(P, t) ==
+(* Declared types may be generic: a record / enum declaration with a field tp  *)
+(* (its type parameter names); its members may mention [k|->"tparam",n|->..]; *)
+(* an instantiation is [k |-> "gen", n |-> "G", as |-> <<T..>>].  Generic     *)
+(* types are supported in DECLARATIONS only (well-formedness, recursion); no  *)
+(* expression of this fragment has such a type.                               *)
+TParams(d) == IF "tp" \in DOMAIN d THEN d.tp ELSE <<>>
+RECURSIVE WfTypeIn(_, _, _)
+WfTypeIn(P, t, tps) ==
   CASE t.k \in PrimK   -> TRUE
-    [] t.k = "opt"     -> WfType(P, t.a)
-    [] t.k = "list"    -> WfType(P, t.a)
-    [] t.k = "named"   -> HasDecl(P, t.n) /\ DeclOf(P, t.n).k \in {"record", "enum"}
+    [] t.k = "opt"     -> WfTypeIn(P, t.a, tps)
+    [] t.k = "list"    -> WfTypeIn(P, t.a, tps)
+    [] t.k = "named"   -> HasDecl(P, t.n) /\ DeclOf(P, t.n).k \in {"record", "enum"} /\ TParams(DeclOf(P, t.n)) = <<>>
+    [] t.k = "tparam"  -> t.n \in tps
+    [] t.k = "gen"     -> /\ HasDecl(P, t.n) /\ DeclOf(P, t.n).k \in {"record", "enum"}
+                          /\ Len(TParams(DeclOf(P, t.n))) = Len(t.as) /\ t.as # <<>>
+                          /\ \A x \in DOMAIN t.as : WfTypeIn(P, t.as[x], tps)
     [] OTHER           -> FALSE
+WfType(P, t) == WfTypeIn(P, t, {})
 
 (* --------------------------------------------------------------- unification *)
 (* mod.rs unify_inner: identical types; never with anything; integer literal *)
@@ -487,16 +498,29 @@ NoConstCycle(P) == \A x \in ItemIdx(P) : P.decls[x].k = "const" => x \notin Reac
 
 (* named types a declared type refers to, also through the arguments of       *)
 (* Option and List (type_cycle.rs: type arguments are part of the cycle check) *)
-RECURSIVE Inline(_)
-Inline(t) == CASE t.k = "named" -> {t.n}
-               [] t.k \in {"opt", "list"} -> Inline(t.a)
-               [] OTHER         -> {}
-TypeRefs(P, nm) ==
-  IF ~HasDecl(P, nm) THEN {} ELSE
-  LET d == DeclOf(P, nm) IN
-  IF d.k = "record" THEN UNION {Inline(d.fs[x].t) : x \in DOMAIN d.fs}
-  ELSE IF d.k = "enum" THEN UNION {UNION {Inline(d.vs[x].ts[y]) : y \in DOMAIN d.vs[x].ts} : x \in DOMAIN d.vs}
+(* member types of a type declaration *)
+MemberTys(d) ==
+  IF d.k = "record" THEN {d.fs[x].t : x \in DOMAIN d.fs}
+  ELSE IF d.k = "enum" THEN UNION {Range(d.vs[x].ts) : x \in DOMAIN d.vs}
   ELSE {}
+RECURSIVE Mentions(_, _)
+Mentions(t, p) == CASE t.k = "tparam" -> t.n = p
+                    [] t.k \in {"opt", "list"} -> Mentions(t.a, p)
+                    [] t.k = "gen" -> \E x \in DOMAIN t.as : Mentions(t.as[x], p)
+                    [] OTHER -> FALSE
+(* the x-th type parameter of generic G occurs in a member of G: only then is *)
+(* an argument part of the instantiated type (a phantom parameter is not; the *)
+(* judgement stays on the permissive side there)                              *)
+ParamUsed(P, g, x) ==
+  HasDecl(P, g) /\ x \in DOMAIN TParams(DeclOf(P, g))
+  /\ \E m \in MemberTys(DeclOf(P, g)) : Mentions(m, TParams(DeclOf(P, g))[x])
+RECURSIVE Inline(_, _)
+Inline(P, t) == CASE t.k = "named" -> {t.n}
+                  [] t.k \in {"opt", "list"} -> Inline(P, t.a)
+                  [] t.k = "gen" -> {t.n} \cup UNION {Inline(P, t.as[x]) : x \in {y \in DOMAIN t.as : ParamUsed(P, t.n, y)}}
+                  [] OTHER         -> {}
+TypeRefs(P, nm) ==
+  IF ~HasDecl(P, nm) THEN {} ELSE UNION {Inline(P, m) : m \in MemberTys(DeclOf(P, nm))}
 RECURSIVE TReach(_, _, _)
 TReach(P, frontier, seen) ==
   LET next == (UNION {TypeRefs(P, x) : x \in frontier}) \ seen IN
@@ -506,9 +530,11 @@ NoTypeCycle(P) ==
      P.decls[x].n \notin TReach(P, TypeRefs(P, P.decls[x].n), TypeRefs(P, P.decls[x].n))
 
 DeclOk(P, d) ==
-  CASE d.k = "record" -> NoDup(Names(d.fs)) /\ \A x \in DOMAIN d.fs : WfType(P, d.fs[x].t)
+  CASE d.k = "record" -> NoDup(Names(d.fs)) /\ NoDup(TParams(d))
+                         /\ \A x \in DOMAIN d.fs : WfTypeIn(P, d.fs[x].t, Range(TParams(d)))
     [] d.k = "enum"   -> NoDup(Names(d.vs))
-                         /\ \A x \in DOMAIN d.vs : \A y \in DOMAIN d.vs[x].ts : WfType(P, d.vs[x].ts[y])
+                         /\ NoDup(TParams(d))
+                         /\ \A x \in DOMAIN d.vs : \A y \in DOMAIN d.vs[x].ts : WfTypeIn(P, d.vs[x].ts[y], Range(TParams(d)))
     [] d.k = "const"  -> WfType(P, d.t) /\ Ok(Chk(P, d.e, Env(<<<<>>>>, NoRet), d.t))
     [] d.k = "fn"     -> /\ NoDup(Names(d.ps))
                          /\ \A x \in DOMAIN d.ps : WfType(P, d.ps[x].t)
